@@ -32,6 +32,9 @@ STATUS_FNS = [
     {'k': 'default'},
     {'k': 'table', 'map': [['-32601', '404'], ['-32600', '400'], ['-32700', '400'], ['2001', '418'], ['-32000', '500']], 'else': '200'},
     {'k': 'table', 'map': [['0', '201']], 'else': '202'},
+    # functions of the *whole* tuple: its length / the multiplicity of a code
+    {'k': 'single', 'map': [['-32601', '404'], ['2001', '418'], ['0', '201']], 'else': '200'},
+    {'k': 'count', 'base': '210'},
 ]
 
 
@@ -65,6 +68,10 @@ BODIES = [
                 {'jsonrpc': '2.0', 'method': 'nosuch', 'id': 2}]),
     json.dumps([{'jsonrpc': '2.0', 'method': 'noargs'}, {'jsonrpc': '2.0', 'method': 'fail_exc'}]),
     json.dumps([{'jsonrpc': '2.0', 'method': 'fail_rpc', 'id': 1}, {'jsonrpc': '2.0', 'method': 'echo', 'id': 2, 'params': [0]}]),
+    json.dumps([{'jsonrpc': '2.0', 'method': 'nosuch', 'id': 1}, {'jsonrpc': '2.0', 'method': 'nosuch', 'id': 2}]),
+    json.dumps([{'jsonrpc': '2.0', 'method': 'fail_rpc', 'id': 1}, {'jsonrpc': '2.0', 'method': 'fail_rpc', 'id': 2},
+                {'jsonrpc': '2.0', 'method': 'fail_rpc', 'id': 3}, {'jsonrpc': '2.0', 'method': 'noargs', 'id': 4}]),
+    json.dumps([{'jsonrpc': '2.0', 'method': 'noargs', 'id': 1}, {'jsonrpc': '2.0', 'method': 'noargs', 'id': 2}]),
     '[]', '{', '', 'null', '{"jsonrpc": "2.0", "method": "echo", "params": ["\\u00e9"], "id": 9}',
 ]
 RAW_BODIES = [b'\xff\xfe{"jsonrpc":"2.0"}', b'{"jsonrpc":"2.0","method":"echo","params":["\xe9"],"id":1}']
@@ -111,8 +118,12 @@ _APPS = {}
 def status_fn(spec):
     if spec['k'] == 'default':
         return None
+    if spec['k'] == 'count':
+        return lambda codes: int(spec['base']) + sum(1 for c in codes if c != 0)
     table = {int(c): int(s) for c, s in spec['map']}
     dflt = int(spec['else'])
+    if spec['k'] == 'single':
+        return lambda codes: table.get(codes[0], dflt) if len(codes) == 1 else dflt
 
     def f(codes):
         for c in codes:
@@ -223,7 +234,7 @@ def region(prop, c):
 def _proj_one(o):
     r = o['reply']
     status = int(r['status'])
-    if status in (200, 201, 202, 400, 404, 418, 500) and r['body'] is not None and status != 415 and r.get('content_type') in ('application/json', None) and r['body'][0] != 'x':
+    if status in (200, 201, 202, 210, 211, 212, 213, 214, 400, 404, 418, 500) and r['body'] is not None and status != 415 and r.get('content_type') in ('application/json', None) and r['body'][0] != 'x':
         relay = True
     else:
         relay = False
